@@ -41,8 +41,15 @@ Definition mangleNumber (t : list Z) : list Z * bool :=
         end
       else
         match t1 with
-        | 48 :: 46 :: d :: r => if is_digit d then 46 :: d :: r else t1
-        | s :: 48 :: 46 :: d :: r => if is_sign s && is_digit d then s :: 46 :: d :: r else t1
+        | a :: b :: d :: r =>
+          if (a =? 48) && (b =? 46) && is_digit d then b :: d :: r            (* "0.5" => ".5" *)
+          else
+            match r with
+            | d2 :: r2 =>
+              if is_sign a && (b =? 48) && (d =? 46) && is_digit d2 then a :: d :: d2 :: r2   (* "-0.5" => "-.5" *)
+              else t1
+            | [] => t1
+            end
         | _ => t1
         end in
     (t2, negb (zlist_eqb t2 t))
@@ -64,6 +71,7 @@ Fixpoint trail_loop (rtext : list Z) (dot : Z) : list Z :=
   end.
 
 Definition zeros (n : Z) : list Z := repeat 48 (Z.to_nat n).
+Definition nil_l {A} (l : list A) : bool := match l with [] => true | _ => false end.
 
 Definition shiftDot (text0 : list Z) (dotOffset : Z) : option (list Z) :=
   if contains_e text0 then None else
@@ -81,7 +89,10 @@ Definition shiftDot (text0 : list Z) (dotOffset : Z) : option (list Z) :=
   let '(text, dot) := lead_loop text dot in
   let text := rev (trail_loop (rev text) dot) in
   let len := Z.of_nat (length text) in
-  if len <=? dot then Some (sign ++ text ++ zeros (dot - len))
+  if len <=? dot then
+    (* fix 0f05885: an all-zero number keeps one digit *)
+    let tz := if nil_l text && (dot - len =? 0) then [48] else zeros (dot - len) in
+    Some (sign ++ text ++ tz)
   else
     let '(text, dot) := if dot <? 0 then (zeros (- dot) ++ text, 0) else (text, dot) in
     Some (sign ++ firstn (Z.to_nat dot) text ++ [46] ++ skipn (Z.to_nat dot) text).
